@@ -23,6 +23,9 @@ type GenOpts struct {
 	PReuseType                                  int // probability an output reuses a concrete type already produced elsewhere
 	PSingleIface                                int // single-return constructor declared with an interface result type
 	PMultiIface                                 int // multi-return constructor: one result declared with an interface type
+	PIntKeyProbe                                int // per-mille per group: keyed probes with small int keys on the group's type (a member's position is not a key); drawn only when > 0
+	TransientVoid                               bool // initializer functions may be registered as transient (Build never runs them; their dependencies must be registered all the same)
+	PSameObj                                    int // several outputs, a later one interface-typed: the constructor returns ONE object under both (C10 only; drawn only when > 0)
 	PStaticKind                                 int // dependency-free single-output registrations use a closure / method value instead of reflect.MakeFunc
 
 	// lifetimes weights (singleton, scoped, transient)
@@ -186,7 +189,7 @@ func (g *gen) genConfig() *Config {
 		switch {
 		case g.p(StCfg, o.PVoid):
 			r.Form = FVoid
-			if r.Life == LTransient {
+			if r.Life == LTransient && !o.TransientVoid {
 				r.Life = LScoped
 			}
 		case g.p(StCfg, o.PInstance):
@@ -232,6 +235,9 @@ func (g *gen) genConfig() *Config {
 				out.T = ifaceRef(g.n(StCfg, NI))
 			}
 			r.Outs = append(r.Outs, out)
+		}
+		if o.PSameObj > 0 && len(r.Outs) > 1 && r.Outs[len(r.Outs)-1].T.IsIface() && g.p(StCfg, o.PSameObj) {
+			r.SameObj = true
 		}
 		// options
 		switch r.Form {
@@ -736,6 +742,13 @@ func (g *gen) genPrograms(m *Model) [][]Op {
 				op.CtxKind = g.n(StOps, nCtxKinds)
 			}
 			progs[ti] = append(progs[ti], op)
+		}
+	}
+	if o.PIntKeyProbe > 0 {
+		for _, gk := range groups {
+			if g.p(StOps, o.PIntKeyProbe) {
+				progs[0] = append(progs[0], Op{Kind: OpResolve, HSel: g.n(StOps, 3), Id: Ident{T: gk.T, Key: fmt.Sprintf("int:%d", 1+g.n(StOps, 2))}})
+			}
 		}
 	}
 	if g.p(StOps, o.PCloseStorm) {
